@@ -9,6 +9,9 @@
 //!           AST  = the text parsed as a VRL program (vrl::parser::parse): {"some": tpath} when the program is exactly
 //!                  one root expression that is a query on an external target, else "none"
 //!           COMP = vrl::compiler::compile(text, stdlib): {"ok":[tpath...]} = Program::info().target_queries, or "err"
+//!   {"op":"exhaust","kind":"parse"|"vrl","alpha":[hex..],"n":N,"prefix":hex}
+//!        -> {"count": number of texts, "oks":[hex..]}   every text prefix++w, w of exactly N alphabet symbols;
+//!           oks = the texts on which any of the calls above returns something other than an error
 //!   RES  = {"ok": path} | "err" | "panic"          TRES = {"ok": tpath} | "err" | "panic"
 //!   tpath = {"prefix":"event"|"metadata","p":path}
 //! Each parser call is wrapped in its own catch_unwind so that a panic is an outcome of that call.
@@ -131,6 +134,53 @@ pub fn run(case: &J) -> J {
         "vrl" => {
             let t = text_of(&case["t"]);
             json!({"ast": vrl_ast(&t), "compiled": vrl_compiled(&t), "target": pt(&t)})
+        }
+        "exhaust" => {
+            // every text prefix ++ w, w a word of exactly n symbols over alpha (first symbol major, like
+            // itertools.product); reports the texts on which anything but errors happens
+            let alpha: Vec<String> = case["alpha"].as_array().unwrap().iter().map(text_of).collect();
+            let n = case["n"].as_u64().unwrap() as usize;
+            let prefix = text_of(&case["prefix"]);
+            let vrl_kind = case["kind"].as_str().unwrap() == "vrl";
+            let mut idx = vec![0usize; n];
+            let mut oks: Vec<J> = vec![];
+            let mut count: u64 = 0;
+            loop {
+                let mut t = prefix.clone();
+                for &i in &idx {
+                    t.push_str(&alpha[i]);
+                }
+                count += 1;
+                let loud = if vrl_kind {
+                    vrl_ast(&t) != json!("none") || pt(&t) != json!("err") || vrl_compiled(&t) == json!("panic")
+                } else {
+                    pv(&t) != json!("err") || pt(&t) != json!("err")
+                };
+                if loud {
+                    oks.push(json!(hex(t.as_bytes())));
+                }
+                // next word
+                let mut k = n;
+                loop {
+                    if k == 0 {
+                        break;
+                    }
+                    k -= 1;
+                    idx[k] += 1;
+                    if idx[k] < alpha.len() {
+                        break;
+                    }
+                    idx[k] = 0;
+                    if k == 0 {
+                        k = usize::MAX;
+                        break;
+                    }
+                }
+                if n == 0 || k == usize::MAX {
+                    break;
+                }
+            }
+            json!({"count": count, "oks": oks})
         }
         o => json!({"harness_error": format!("bad op {o}")}),
     }
